@@ -116,6 +116,15 @@ impl WasmEngine {
             .map(|s| s.global_state.data.as_slice())
     }
 
+    /// Cursor of the global state storage (verification hook).
+    #[cfg(mimium_verif)]
+    pub fn verif_global_state_pos(&mut self) -> Option<usize> {
+        self.current_module
+            .as_mut()
+            .and_then(|m| m.get_runtime_state_mut())
+            .map(|s| s.global_state.pos)
+    }
+
     /// Overwrite the global state data in the current module's `RuntimeState`.
     ///
     /// Also resets the state position cursor to zero so the next `dsp` call
